@@ -158,11 +158,6 @@ func c09Run(c *c09Case) (finds [][2]string, abort string, stats map[string]int) 
 			if id == "" {
 				add("no-bookkeeping", fmt.Sprintf("event %d: no transaction entry for the new request", ei))
 			}
-			for _, t := range post.Tx {
-				if t.ID == id && !t.Timer {
-					add("timer-not-armed", fmt.Sprintf("event %d: the new request has no retransmission timer", ei))
-				}
-			}
 			reqs = append(reqs, &c09Req{sess: ev.S % len(sessions), node: ss.node, wire: d.M.Seq, bytes: d.B, id: id})
 			stats["requests"]++
 		default:
@@ -235,11 +230,6 @@ func c09Run(c *c09Case) (finds [][2]string, abort string, stats map[string]int) 
 					stats["retransmissions"]++
 					if !inTx(q.id) {
 						add("entry-lost", fmt.Sprintf("event %d: request #%d still has retries left but its bookkeeping is gone", ei, k))
-					}
-					for _, t := range post.Tx {
-						if t.ID == q.id && !t.Timer {
-							add("timer-not-armed", fmt.Sprintf("event %d: request #%d was retransmitted but its timer was not re-armed", ei, k))
-						}
 					}
 				default:
 					if len(ds) > 0 {
@@ -382,16 +372,17 @@ func c09Stale(ci int, c *c09StaleCase, res *vh.Result) (finds [][2]string, abort
 		return nil, "", ""
 	}
 	// wait for the real timers of all of them to have fired at least once more: their expiries sit in the queue
-	deadline := time.Now().Add(5 * time.Second)
+	// (best effort: if no expiry shows up in the queue within a few timeouts the case goes on without that interleaving -
+	// whether timers run at all is decided at the end, on the requests that are never answered)
+	deadline := time.Now().Add(5*rt + 300*time.Millisecond)
 	for {
 		_, _, nto := env.Srv.VerifQueueLens()
 		if nto >= len(order) {
 			break
 		}
 		if time.Now().After(deadline) {
-			released = true
-			close(gate)
-			return nil, "timers did not fire while the loop was held", ""
+			res.Count("real_timer_cases_without_a_queued_expiry", 1)
+			break
 		}
 		time.Sleep(time.Millisecond)
 	}
@@ -443,8 +434,9 @@ func c09Stale(ci int, c *c09StaleCase, res *vh.Result) (finds [][2]string, abort
 		res.Write(false)
 		os.Exit(3)
 	}
-	// let every timer that is (wrongly or rightly) still armed run out
-	time.Sleep(time.Duration(int(c.MaxRetrans)+3) * rt)
+	// let every timer that is (wrongly or rightly) still armed run out (generous: the verdicts below that depend on it
+	// are bounded-progress verdicts)
+	time.Sleep(time.Duration(int(c.MaxRetrans)+3)*rt + 400*time.Millisecond)
 	h2 := s.NextSeq()
 	s.SendFrom(0, vh.BuildMsg(vh.MHeartbeatReq, nil, h2, vh.RecoveryTS(3)))
 	if s.WaitRsp(h2, 5*time.Second) == nil {
@@ -492,6 +484,11 @@ func c09Stale(ci int, c *c09StaleCase, res *vh.Result) (finds [][2]string, abort
 	for _, t := range post.Tx {
 		if answered[t.Seq] {
 			add("entry-not-released", fmt.Sprintf("request %d was answered but its bookkeeping remains", t.Seq))
+		} else if _, mine := first[t.Seq]; mine {
+			// bounded progress: the retransmission timer runs out (1+MaxRetrans)*timeout after the request went out; two
+			// further periods and 400 ms later the request must have been given up
+			add("unanswered-request-never-given-up", fmt.Sprintf("request %d was never answered; %d ms after it was sent (retransmission timeout %d ms, %d retries) it is still outstanding (sent %d times)",
+				t.Seq, (int(c.MaxRetrans)+3)*c.RTms+400, c.RTms, c.MaxRetrans, total[t.Seq]))
 		}
 	}
 	if fs := vh.TakeFatals(); len(fs) > 0 {
